@@ -17,18 +17,23 @@ Line by line:
                  float kinds (truncation toward zero; out of the `int64` range the result is
                  implementation-defined ⇒ `unmodelled`). A *string is not* convertible to `int`;
    * `float64` — every integer kind (round to nearest-even, `roundF64`) and both float kinds;
-   * `[]any`   — only `[]any` itself (passed by reference, elements untouched);
+   * `[]any`   — only `[]any` itself (passed by reference, elements untouched — but see `holdsDrop` below);
    * `time.Time` — only `time.Time`.
 3. `typ == time.Time` and a string ⇒ `ParseDate` (`unmodelled`).
 4. the `switch typ.Kind()`:
    * Bool: `!(value == nil || value == false)`;
    * Int: `bool` ⇒ 0/1, `string` ⇒ `strconv.ParseInt(s, 10, 64)`, anything else (nil included) `TypeError`;
    * Float64: `string` ⇒ `strconv.ParseFloat(s, 64)`, anything else `TypeError`;
-   * Slice: `yaml.MapSlice` ⇒ its values (unconverted, a nil value stays nil); `Range` ⇒ `AsArray`;
-     array / typed slice (`[]byte` included) ⇒ each element through `Convert(·, any)`; map ⇒ the
-     values in sorted key order (the D9 repair; the model's entry list *is* in that order), each
-     through `Convert(·, any)`. NB `Convert(nil, any)` is a `TypeError` (no rule applies to a nil
-     value and an interface target), so a typed container holding a nil element fails;
+   * Slice: `yaml.MapSlice` ⇒ its values, each through `ToLiquid` (a nil value stays nil); `Range` ⇒
+     `AsArray`; array / typed slice (`[]byte` included) ⇒ each element through `convertElement`,
+     i.e. `Convert(·, any)` = `ToLiquid`, except that a nil element stays nil
+     (`fixes/array-nil-element`); map ⇒ the values in sorted key order (the D9 repair; the model's
+     entry list *is* in that order), each through `convertElement`. A `[]any` is passed by
+     reference by rule 2 *unless one of its elements is a drop* (`holdsDrop`,
+     `fixes/drops-in-arrays`): then it is converted element by element like a typed slice. Since
+     `ToLiquid` is the identity on everything but drops, both cases are `xs.map toLiquid`.
+     NB `Convert(nil, any)` itself is still a `TypeError` (no rule applies to a nil value and an
+     interface target): only the element position keeps a nil;
    * String: `[]byte` ⇒ the bytes; `fmt.Stringer` (only `time.Time` in the model ⇒ `unmodelled`);
      everything else `fmt.Sprint` (nil ⇒ `<nil>`);
    * otherwise (`any` with a nil value, `time.Time` with a non-time value) `TypeError`.
@@ -184,9 +189,8 @@ def convAny (v : GoVal) : Res Cause GoVal :=
   | .nil => .err .typeErr
   | w => .ok w
 
-def convAnyAll : List GoVal → Res Cause (List GoVal)
-  | [] => .ok []
-  | x :: xs => (convAny x).bind fun a => (convAnyAll xs).bind fun as => .ok (a :: as)
+/-- `convertElement(·, any)` over the elements of a container: `ToLiquid`, a nil stays nil -/
+def convElems (xs : List GoVal) : List GoVal := xs.map GoVal.toLiquid
 
 /-- `Range.AsArray` (after the D6 repair: empty when `e < b`; ranges longer than `maxRangeArrayLen` are
 rejected by `Convert` before) -/
@@ -224,17 +228,16 @@ def convert (v0 : GoVal) (t : ParamTy) : Res Cause GoVal :=
     | w => (sprint w).bind fun b => .ok (.str b)
   | .anys =>
     match v with
-    | .slice .any xs => .ok (.slice .any xs)
-    | .mapSlice kvs => .ok (.slice .any (kvs.map (·.2)))
+    | .mapSlice kvs => .ok (.slice .any (convElems (kvs.map (·.2))))
     | .range a b =>
       if b - a + 1 > 10000000 then .err .typeErr          -- maxRangeArrayLen: "range too large to convert to an array"
       else if b - a > 1000000 then .unmodelled "range of more than a million items"
       else .ok (.slice .any (rangeInts a b))
-    | .slice _ xs => (convAnyAll xs).bind fun ys => .ok (.slice .any ys)
-    | .array _ xs => (convAnyAll xs).bind fun ys => .ok (.slice .any ys)
+    | .slice _ xs => .ok (.slice .any (convElems xs))     -- `[]any` without a drop: by reference, and `convElems xs = xs`
+    | .array _ xs => .ok (.slice .any (convElems xs))
     | .bytes s => .ok (.slice .any (s.map fun b => .int .u8 b.toNat))
-    | .map _ _ kvs => (convAnyAll (kvs.map (·.2))).bind fun ys => .ok (.slice .any ys)
-    | .keyedMap kvs => (convAnyAll (kvs.map (·.2))).bind fun ys => .ok (.slice .any ys)
+    | .map _ _ kvs => .ok (.slice .any (convElems (kvs.map (·.2))))
+    | .keyedMap kvs => .ok (.slice .any (convElems (kvs.map (·.2))))
     | _ => .err .typeErr
   | .time =>
     match v with
